@@ -47,6 +47,7 @@ ApplyHere(n, op) ==
     [] op.op = "eof"   -> [n EXCEPT !.eof = TRUE]
     \* optional boxes that carry no sample-level meaning for the reader: an edit list in a trak
     \* (version op.ver, one empty edit and one media edit), the fragment duration in mvex
+    [] op.op = "edts" /\ op.ver = 2 -> [n EXCEPT !.kids = InsAt(@, op.at, Cont(EDTS, <<>>, <<>>))]      \* an empty edit box (8 bytes)
     [] op.op = "edts"  -> [n EXCEPT !.kids = InsAt(@, op.at, Cont(EDTS, <<>>, <<Leaf(EncElst(
                               [ version |-> op.ver, flags |-> 0,
                                 entries |-> << [segment_duration |-> <<5>>, media_time |-> IF op.ver = 1 THEN <<255, 255, 255, 255, 255, 255, 255, 255>> ELSE <<255, 255, 255, 255>>,
@@ -385,7 +386,9 @@ RenderFrag(fm0, delivery, ops) ==
 \* kinds get 64-bit size headers
 LargeOf(md) == IF "large" \in DOMAIN md THEN md.large ELSE {}
 WithLarge(n, on) == [n EXCEPT !.large = on]
-ItemNodeL(it, lg) == WithLarge(Cont(it.cc, <<>>, <<WithLarge(Leaf(EncData([data_type |-> it.type, data |-> it.data])), "data" \in lg)>>), "item" \in lg)
+\* an item record with a `raw` field is an ilst child that is not an item at all (padding, a short
+\* unknown atom): its payload verbatim, no data box
+ItemNodeL(it, lg) == IF "raw" \in DOMAIN it THEN Leaf(Box(it.cc, it.raw)) ELSE WithLarge(Cont(it.cc, <<>>, <<WithLarge(Leaf(EncData([data_type |-> it.type, data |-> it.data])), "data" \in lg)>>), "item" \in lg)
 ItemNode(it) == ItemNodeL(it, {})
 MetaNode(md) ==
   LET lg == LargeOf(md)
